@@ -1,6 +1,7 @@
 package scan
 
 import (
+	"bufio"
 	"context"
 	"errors"
 	"io"
@@ -21,6 +22,8 @@ const (
 	c13WrongType
 	c13Blank
 	c13OKv6Spelled // a valid IPv4 target written as ::ffff:a.b.c.d
+	c13PortMax     // the highest valid port
+	c13LongLine    // a line beyond bufio.Scanner's 64 KiB limit: one error stating that, nothing after it
 	c13NumClasses
 )
 
@@ -36,13 +39,17 @@ var c13Text = [c13NumClasses]string{
 	c13WrongType:   `{"ip":5,"port":6%}`,
 	c13Blank:       ``,
 	c13OKv6Spelled: `{"ip":"::ffff:10.5.5.%","port":5%}`,
+	c13PortMax:     `{"ip":"10.6.6.%","port":65535}`,
+	c13LongLine:    `{"ip":"10.7.7.%","port":80,"comment":"LONG"}`,
 }
 
 // c13Cause is the error a line of class c must be reported with (nil: the line is a target).
 func c13Cause(c int) error {
 	switch c {
-	case c13OK, c13OKv6Spelled:
+	case c13OK, c13OKv6Spelled, c13PortMax:
 		return nil
+	case c13LongLine:
+		return bufio.ErrTooLong
 	case c13BadJSON, c13WrongType, c13Blank:
 		return ErrJSON
 	case c13NoIP, c13BadIP:
@@ -52,7 +59,11 @@ func c13Cause(c int) error {
 }
 
 func c13Line(c, i int) string {
-	return strings.ReplaceAll(c13Text[c], "%", string(rune('1'+i)))
+	t := strings.ReplaceAll(c13Text[c], "%", string(rune('1'+i)))
+	if c == c13LongLine {
+		t = strings.Replace(t, "LONG", strings.Repeat("x", 66000), 1)
+	}
+	return t
 }
 
 func c13WantIP(c, i int) net.IP {
@@ -61,6 +72,8 @@ func c13WantIP(c, i int) net.IP {
 		return net.IPv4(10, 0, 0, byte(1+i))
 	case c13OKv6Spelled:
 		return net.IPv4(10, 5, 5, byte(1+i))
+	case c13PortMax:
+		return net.IPv4(10, 6, 6, byte(1+i))
 	}
 	return nil
 }
@@ -68,6 +81,9 @@ func c13WantIP(c, i int) net.IP {
 func c13WantPort(c, i int) uint16 {
 	if c == c13OK {
 		return uint16(81 + i)
+	}
+	if c == c13PortMax {
+		return 65535
 	}
 	return uint16(51 + i)
 }
